@@ -5,6 +5,8 @@
      get:<i>:<idx>   view:<i>:<bytes>  copy:<i>   seti:<i>:<k>:<v>  setr:<i>:<k>:<elem>
      set:<i>:<idx>:v<z> | set:<i>:<idx>:q<j>      op:<i>:<fn>:<inplace>:<dtchg>
      cat:<j>,<bpr>;<j>,<bpr>...        drop:<i>   opq:<i>:<fn2>:<j>:<inplace>:<dtchg> (sequence operand)
+     appbad:<i>[:b] (element with another trailing shape)   shrink:<i>   cat1:<j>,<j>... (axis=1)
+     gett:<i>:<idx>:<lo>:<hi> (seq[idx, lo:hi])
    <elems> = '-' (empty list) or elements joined by '/', an element = rows joined by '.', 'e' = empty
    <idx>   = s,<a>,<b>,<c> ('n' = None) | l[,<k>...] | m[,<0|1>...]
    <fn>    = add,<k> | mul,<k> | neg | lt,<k> | eq,<k> | or,<k> | and,<k> | xor,<k> | shl,<k> | shr,<k>
@@ -51,6 +53,10 @@ let op_of_string s = match split ':' s with
     OConcat (List.map (fun p -> match split ',' p with [j; b] -> (nat j, z_of_string b) | _ -> failwith "bad cat")
                (if js = "" then [] else split ';' js))
   | ["drop"; i] -> ODrop (nat i)
+  | ["appbad"; i] | ["appbad"; i; _] -> OAppendBad (nat i)
+  | ["shrink"; i] -> OShrink (nat i)
+  | ["cat1"; js] -> OConcat1 (List.map nat (if js = "" then [] else split ',' js))
+  | ["gett"; i; ix; _; _] -> OGetCols (nat i, index_of_string ix)
   | ["opq"; i; g; j; ip; dc] -> OOpSeq (nat i, fn2_of_string g, nat j, bool_of_string ip, bool_of_string dc)
   | _ -> failwith ("bad op " ^ s)
 let string_of_err = function EIndex -> "Index" | EValue -> "Value" | EStopIteration -> "StopIteration" | EBadSeq -> "BadSeq"
